@@ -1,4 +1,5 @@
 import MirProofs.Lemmas.Beat
+import MirProofs.Lemmas.BeatDef
 /-!
   C04 (beat) — the algorithms of `mir_eval.beat` (as modelled in MirModel/Beat.lean and tied to the code by the
   correspondence suites) equal their documented definitions.
@@ -62,5 +63,541 @@ example : wrapErr (3 / 4) = -1 / 4 := by decide +kernel
 example : variations [1, 2, 4] = [[1, 2, 4], [3 / 2, 3], [1, 3 / 2, 2, 3, 4], [1, 4], [2]] := by decide +kernel
 example : gotoErr 5 6 7 [23 / 4] = -1 / 2 := by decide +kernel
 example : ([5, 6] : List Rat) ≠ [] := by simp
+
+
+/-! ## P-score: the correlate-and-slice computation, the pair count, McKinney's definition
+
+`p_score` quantises both sequences to 10 ms samples, builds two 0/1 impulse trains of length `N`, and returns
+`np.sum(np.correlate(ref_train, est_train, "full")[middle - win : middle + win + 1]) / max(|ref|, |est|)`.
+The model `pScoreCore` counts index pairs directly; `pScoreLiteral` (MirModel/Beat.lean) does what the code does
+(trains, sliding dot products for all `2N - 1` lags, Python slice with negative-start wrap-around, sum).  Both are tied
+to the real code by correspondence suites (`beat.p_score`, `beat.p_score_literal`, `beat.correlate_window`). -/
+
+/-- **`np.correlate` + slice = pair count, for every input**: the step-by-step mirror of the code never raises
+    (all quantised beats are valid train indices) and returns exactly the pair-count model's value. -/
+theorem pscore_literal_eq_model (ref est : List Rat) (thr : Rat) :
+    pScoreLiteral ref est thr = .ok (pScoreCore ref est thr) := pScoreLiteral_eq ref est thr
+
+/-- the identity behind it, on arbitrary 0/1 trains: for impulse positions `R`, `E` inside `[0, N)` (repetitions
+    allowed), `train[idx] = 1` succeeds, `np.flatnonzero` of a train lists its distinct impulse positions in increasing
+    order, and the sum of the slice `[middle - win : middle + win + 1]` (Python semantics) of the FULL cross-correlation
+    is the number of pairs (i, j) of impulse positions whose lag index `i - j + (N - 1)` lies inside the slice bounds. -/
+theorem correlate_slice_is_pair_count (N : Nat) (hN : 0 < N) (R E : List Int)
+    (hR : ∀ i ∈ R, 0 ≤ i ∧ i < (N : Int)) (hE : ∀ j ∈ E, 0 ≤ j ∧ j < (N : Int)) (win : Int) :
+    ∃ a v, impulseTrain N R = .ok a ∧ impulseTrain N E = .ok v ∧
+      (∀ y, y ∈ flatnonzeroNatFrom 0 a ↔ y ∈ R) ∧ (flatnonzeroNatFrom 0 a).Pairwise (· < ·) ∧
+      (∀ y, y ∈ flatnonzeroNatFrom 0 v ↔ y ∈ E) ∧ (flatnonzeroNatFrom 0 v).Pairwise (· < ·) ∧
+      corrWindowSum a v win =
+        pairCount (flatnonzeroNatFrom 0 a) (flatnonzeroNatFrom 0 v) ((N : Int) - 1)
+          (pySliceBounds (2 * N - 1) ((((2 * N - 1) / 2 : Nat) : Int) - win) ((((2 * N - 1) / 2 : Nat) : Int) + win + 1)).1
+          (pySliceBounds (2 * N - 1) ((((2 * N - 1) / 2 : Nat) : Int) - win) ((((2 * N - 1) / 2 : Nat) : Int) + win + 1)).2 :=
+  ⟨trainOf N R, trainOf N E, impulseTrain_ok N R hR, impulseTrain_ok N E hE,
+    mem_flatnonzero_trainOf N R hR, flatnonzeroNatFrom_strict _, mem_flatnonzero_trainOf N E hE,
+    flatnonzeroNatFrom_strict _, corrWindowSum_trainOf N hN R E win⟩
+
+/-- **McKinney's definition.**  Let `win`, `N`, `cnt` be the window, the train length and the windowed correlation
+    sum that `p_score` computes (`pScoreParts`), and `R`, `E` the distinct quantised reference / estimated beat samples
+    (`trainSupport`: strictly increasing, inside `[0, N)`).  Then:
+    * for `0 ≤ win < N`, `cnt` is the number of pairs `(i, j) ∈ R × E` with `|i - j| ≤ win`;
+    * for `win ≥ N` the negative slice start wraps around and `cnt` counts only the pairs with
+      `i - j ≥ 2N - 1 - win` (reference later than estimate);
+    * for `win < 0` the slice is empty and `cnt = 0`. -/
+theorem pscore_correlation_spec (r : Rat) (rs : List Rat) (e : Rat) (es : List Rat) (thr : Rat) (win : Int) (N cnt : Nat)
+    (h : pScoreParts r rs e es thr = some (win, N, cnt)) :
+    let R := trainSupport (r :: rs) (min (minList e es) (minList r rs))
+    let E := trainSupport (e :: es) (min (minList e es) (minList r rs))
+    (R.Pairwise (· < ·) ∧ E.Pairwise (· < ·) ∧ (∀ i ∈ R, 0 ≤ i ∧ i < (N : Int)) ∧ (∀ j ∈ E, 0 ≤ j ∧ j < (N : Int))) ∧
+    (0 ≤ win → win < (N : Int) → cnt = windowPairs R E win) ∧
+    ((N : Int) ≤ win → cnt = (R.flatMap fun i => E.filter fun j => decide (2 * (N : Int) - 1 - win ≤ i - j)).length) ∧
+    (win < 0 → cnt = 0) := by
+  intro R E
+  have hrange := trainSupport_in_range r rs e es
+  simp only [pScoreParts] at h
+  split at h
+  · simp at h
+  · simp only [Option.some.injEq, Prod.mk.injEq] at h
+    obtain ⟨rfl, rfl, rfl⟩ := h
+    exact ⟨⟨trainSupport_strict _ _, trainSupport_strict _ _, hrange.1, hrange.2⟩,
+      fun hw hwN => pairCount_window _ _ _ _ hw hwN,
+      fun hwN => pairCount_wrapped _ _ _ _ hwN hrange.1 hrange.2,
+      fun hw => pairCount_negative _ _ _ _ hw⟩
+
+/-- the P-score itself: McKinney's pair count over `max(|ref|, |est|)`, whenever the window is shorter than the train -/
+theorem pscore_definition (r r' : Rat) (rs : List Rat) (e e' : Rat) (es : List Rat) (thr : Rat) (win : Int) (N cnt : Nat)
+    (h : pScoreParts r (r' :: rs) e (e' :: es) thr = some (win, N, cnt)) (hw : 0 ≤ win) (hwN : win < (N : Int)) :
+    pScoreCore (r :: r' :: rs) (e :: e' :: es) thr =
+      (windowPairs (trainSupport (r :: r' :: rs) (min (minList e (e' :: es)) (minList r (r' :: rs))))
+        (trainSupport (e :: e' :: es) (min (minList e (e' :: es)) (minList r (r' :: rs)))) win : Rat) /
+        ((max (es.length + 2) (rs.length + 2) : Nat) : Rat) := by
+  have hc := (pscore_correlation_spec r (r' :: rs) e (e' :: es) thr win N cnt h).2.1 hw hwN
+  simp only [pScoreCore, h, hc]
+
+/-- **McKinney's definition, unconditionally for thresholds in [0, 1]** (the documented default is 0.2): the window
+    is then always shorter than the train, so for ALL beat sequences with at least two beats each whose reference beats
+    do not all fall into one sample, the P-score is the number of pairs of quantised reference / estimated samples at
+    most `win` samples apart, divided by `max(|ref|, |est|)`. -/
+theorem pscore_definition_unit_threshold (r r' : Rat) (rs : List Rat) (e e' : Rat) (es : List Rat) (thr : Rat)
+    (win : Int) (N cnt : Nat) (h : pScoreParts r (r' :: rs) e (e' :: es) thr = some (win, N, cnt))
+    (h0 : 0 ≤ thr) (h1 : thr ≤ 1) :
+    (0 ≤ win ∧ win < (N : Int)) ∧
+    pScoreCore (r :: r' :: rs) (e :: e' :: es) thr =
+      (windowPairs (trainSupport (r :: r' :: rs) (min (minList e (e' :: es)) (minList r (r' :: rs))))
+        (trainSupport (e :: e' :: es) (min (minList e (e' :: es)) (minList r (r' :: rs)))) win : Rat) /
+        ((max (es.length + 2) (rs.length + 2) : Nat) : Rat) := by
+  have hw := pScoreParts_window_lt r (r' :: rs) e (e' :: es) thr win N cnt h h0 h1
+  exact ⟨hw, pscore_definition r r' rs e e' es thr win N cnt h hw.1 hw.2⟩
+
+/-- the remaining cases of `p_score`: fewer than two beats on either side, or all reference beats in one 10 ms
+    sample (no inter-annotation interval), give 0 -/
+theorem pscore_degenerate (ref est : List Rat) (thr : Rat) :
+    (ref.length ≤ 1 ∨ est.length ≤ 1 → pScoreCore ref est thr = 0) ∧
+    (∀ r r' rs e e' es, ref = r :: r' :: rs → est = e :: e' :: es →
+      pScoreParts r (r' :: rs) e (e' :: es) thr = none → pScoreCore ref est thr = 0) := by
+  constructor
+  · intro h
+    rcases ref with _ | ⟨r, _ | ⟨r', rs⟩⟩
+    · rfl
+    · cases est <;> rfl
+    · rcases est with _ | ⟨e, _ | ⟨e', es⟩⟩
+      · rfl
+      · rfl
+      · simp at h
+  · rintro r r' rs e e' es rfl rfl h
+    simp [pScoreCore, h]
+
+/-- `windowPairs`, spelled out: the number of pairs of list positions whose entries are at most `win` apart -/
+theorem window_pairs_def (R E : List Int) (win : Int) :
+    windowPairs R E win = (R.flatMap fun i => E.filter fun j => decide (|i - j| ≤ win)).length := rfl
+
+/-- the unrestricted statement ("for every window ≥ 0 the code counts the pairs within ±win") is FALSE of the code:
+    a window reaching the train length makes the slice start negative, which Python wraps around. -/
+def pscore_correlation_full_statement : Prop :=
+  ∀ (r : Rat) (rs : List Rat) (e : Rat) (es : List Rat) (thr : Rat) (win : Int) (N cnt : Nat),
+    pScoreParts r rs e es thr = some (win, N, cnt) → 0 ≤ win →
+      cnt = windowPairs (trainSupport (r :: rs) (min (minList e es) (minList r rs)))
+        (trainSupport (e :: es) (min (minList e es) (minList r rs))) win
+
+/-- witness: beats 5, 6, 7 against themselves with threshold 3 (window 300 samples, train length 201): the code's sum
+    is 1, the number of pairs within the window is 9 -/
+theorem pscore_correlation_full_false : ¬ pscore_correlation_full_statement := by
+  intro h
+  have := h 5 [6, 7] 5 [6, 7] 3 300 201 1 (by decide +kernel) (by decide)
+  revert this
+  decide +kernel
+
+/-- the strongest true version is `pscore_correlation_spec` (its second component) -/
+theorem pscore_correlation_partial (r : Rat) (rs : List Rat) (e : Rat) (es : List Rat) (thr : Rat) (win : Int) (N cnt : Nat)
+    (h : pScoreParts r rs e es thr = some (win, N, cnt)) (hw : 0 ≤ win) (hwN : win < (N : Int)) :
+    cnt = windowPairs (trainSupport (r :: rs) (min (minList e es) (minList r rs)))
+      (trainSupport (e :: es) (min (minList e es) (minList r rs))) win :=
+  (pscore_correlation_spec r rs e es thr win N cnt h).2.1 hw hwN
+
+/-! non-vacuity (P-score) -/
+example : pScoreParts 5 [6, 7] (21 / 4) [6, 7] (1 / 5) = some (20, 201, 2) := by decide +kernel
+example : windowPairs (trainSupport [5, 6, 7] 5) (trainSupport [21 / 4, 6, 7] 5) 20 = 2 := by decide +kernel
+example : pScoreLiteral [5, 6, 7] [21 / 4, 6, 7] (1 / 5) = .ok (2 / 3) := by decide +kernel
+example : pScoreCore [5, 6, 7] [21 / 4, 6, 7] (1 / 5) = 2 / 3 := by decide +kernel
+example : impulseTrain 5 [0, 3, 3] = .ok [1, 0, 0, 1, 0] ∧ impulseTrain 5 [1, 4] = .ok [0, 1, 0, 0, 1] := by
+  decide +kernel
+example : correlateFull [1, 0, 0, 1, 0] [0, 1, 0, 0, 1] = [1, 0, 0, 2, 0, 0, 1, 0, 0] := by decide +kernel
+example : corrWindowSum [1, 0, 0, 1, 0] [0, 1, 0, 0, 1] 1 = 2 ∧ corrWindowSum [1, 0, 0, 1, 0] [0, 1, 0, 0, 1] 5 = 0 ∧
+    windowPairs [0, 3] [1, 4] 1 = 2 ∧ windowPairs [0, 3] [1, 4] 5 = 4 := by decide +kernel
+example : pScoreParts 5 [6, 7] 5 [6, 7] 3 = some (300, 201, 1) := by decide +kernel
+example : impulseTrain 3 [3] = .error .indexError ∧ impulseTrain 3 [-1] = .ok [0, 0, 1] := by decide +kernel
+
+/-! ## Information gain: the histogram is a partition (so the normalised histogram is a distribution) -/
+
+/-- `np.histogram` with the edges `linspace(-.5, .5, bins + 1)` is a partition of [-1/2, 1/2] into `bins` bins
+    (`InBin bins i v`: `edge_i ≤ v < edge_{i+1}`, or `i` is the last bin and `v = edge_bins = 1/2`):
+    for every number of bins and every list of values in [-1/2, 1/2], each value lies in exactly one bin, the
+    histogram has `bins` entries, entry `i` is the number of values in bin `i`, and the counts sum to the number
+    of values — also as the `total` that `entropyOfCounts` computes with `foldl`, which is what makes the
+    normalised histogram a probability distribution. -/
+theorem histogram_partition (bins : Nat) (vals : List Rat) (hb : 0 < bins)
+    (hv : ∀ v ∈ vals, -(1 / 2) ≤ v ∧ v ≤ 1 / 2) :
+    (∀ v ∈ vals, ∃! i, i < bins ∧ InBin bins i v) ∧
+      (histogram bins vals).length = bins ∧
+      (∀ i, i < bins →
+        (histogram bins vals)[i]? = some (vals.filter fun v => decide (InBin bins i v)).length) ∧
+      (histogram bins vals).sum = vals.length ∧
+      (histogram bins vals).foldl (fun (a b : Nat) => a + b) 0 = vals.length :=
+  ⟨fun v hm => inBin_exists_unique hb (hv v hm).1 (hv v hm).2, histogram_length bins vals,
+    fun _ hi => histogram_getElem? bins vals hi, histogram_sum hb hv, histogram_total_foldl hb hv⟩
+
+/-- the bins are pairwise disjoint and cover exactly [-1/2, 1/2]: a value is in some bin iff it is in that range
+    (so `np.histogram` drops anything outside the outer edges), and then the bin is unique. -/
+theorem bins_cover_exactly_the_range (bins : Nat) (hb : 0 < bins) (v : Rat) :
+    ((∃ i, i < bins ∧ InBin bins i v) ↔ (-(1 / 2) ≤ v ∧ v ≤ 1 / 2)) ∧
+      (∀ i j, i < bins → j < bins → InBin bins i v → InBin bins j v → i = j) :=
+  ⟨⟨fun ⟨_, hi, h⟩ => inBin_range hi h, fun h => inBin_exists hb h.1 h.2⟩,
+    fun _ _ hi hj h1 h2 => inBin_unique hi hj h1 h2⟩
+
+/-- without the range hypothesis: the counts sum to the number of values in [-1/2, 1/2]
+    (values outside, which cannot occur for wrapped errors, are dropped, as `np.histogram` does). -/
+theorem histogram_sum_drops_out_of_range (bins : Nat) (vals : List Rat) (hb : 0 < bins) :
+    (histogram bins vals).sum =
+      (vals.filter fun v => decide (-(1 / 2) ≤ v) && decide (v ≤ 1 / 2)).length :=
+  histogram_sum_general hb vals
+
+/-- the histogram of the beat errors: every finite error that `_get_entropy` histograms lies in (-1/2, 1/2], hence
+    in exactly one bin, and the bin counts sum to the number of finite errors (also as `entropyOfCounts`' total). -/
+theorem histogram_of_beat_errors (ref est vals : List Rat) (bins : Nat) (hb : 0 < bins)
+    (h : beatErrors ref est = .ok vals) :
+    (∀ v ∈ vals, -(1 / 2) < v ∧ v ≤ 1 / 2) ∧
+      (∀ v ∈ vals, ∃! i, i < bins ∧ InBin bins i v) ∧
+      (histogram bins vals).sum = vals.length ∧
+      (histogram bins vals).foldl (fun (a b : Nat) => a + b) 0 = vals.length :=
+  ⟨beatErrors_range h,
+    fun v hm => inBin_exists_unique hb (beatErrors_range h v hm).1.le (beatErrors_range h v hm).2,
+    histogram_beatErrors_sum hb h, histogram_beatErrors_total hb h⟩
+
+/-! non-vacuity -/
+example : histogram 4 [-(1 / 2), -(1 / 4), 0, 1 / 2, 1 / 8] = [1, 1, 2, 1] := by decide +kernel
+example : histogram 2 [-1, 0, 3 / 4] = [0, 1] := by decide +kernel
+example : InBin 4 2 (1 / 8) := by decide +kernel
+example : InBin 4 3 (1 / 2) ∧ ¬ InBin 4 2 (1 / 2) ∧ ¬ InBin 4 3 (3 / 4) := by decide +kernel
+example : beatErrors [5, 6, 7] [21 / 4, 13 / 2] = .ok [1 / 4, 1 / 2] := by decide +kernel
+example : histogram 4 [1 / 4, 1 / 2] = [0, 0, 0, 2] := by decide +kernel
+
+/-! ## Continuity: the stateful loop = a stateless definition -/
+
+/-- **Nearest annotation.**  Whatever `np.argmin(np.abs(e - refv))` returns (value `d`, index `j`) is the nearest
+    annotation: `j` is a valid index, no annotation is nearer to `e`, every EARLIER annotation is strictly
+    farther (first minimum), `d` is the distance, and `j` is the only index with these properties. -/
+theorem continuity_nearest_spec (refv : List Rat) (e d : Rat) (j : Nat)
+    (h : minIdx (refv.map fun r => absR (e - r)) = some (d, j)) :
+    (j < refv.length ∧ (∀ k, k < refv.length → |e - refv.getD j 0| ≤ |e - refv.getD k 0|) ∧
+      (∀ k, k < j → |e - refv.getD j 0| < |e - refv.getD k 0|)) ∧
+    d = |e - refv.getD j 0| ∧ j = nearestIdx refv e ∧ ∀ j', IsNearest refv e j' → j' = j := by
+  obtain ⟨h1, h2⟩ := minIdx_isNearest h
+  exact ⟨h1, h2, by simp [nearestIdx, h], fun j' hj' => hj'.unique h1⟩
+
+/-- on a non-empty reference the nearest annotation exists and is `nearestIdx` -/
+theorem continuity_nearest_exists (refv : List Rat) (e : Rat) (hne : refv ≠ []) :
+    minIdx (refv.map fun r => absR (e - r)) = some (|e - refv.getD (nearestIdx refv e) 0|, nearestIdx refv e) ∧
+    ∀ j, IsNearest refv e j ↔ j = nearestIdx refv e :=
+  ⟨minIdx_nearestIdx hne e, isNearest_iff hne e⟩
+
+/-- **Local correctness, spelled out** (this is the definition `LocalOk`, nothing is hidden in it).
+    `first` = first estimated beat or first annotation.  The reference interval looks forward
+    (`refv[j+1] - refv[j]`) for a `first` beat when there is a next annotation, otherwise backward
+    (`refv[j] - refv[j-1]`; for `j = 0` Python's index `-1` wraps around and the interval is 0); likewise the
+    estimated interval.  With a zero reference interval a `first` beat succeeds only if it coincides with the
+    annotation, its own interval is 0 and the thresholds exceed 1 resp. 0; a non-first beat fails (NumPy inf / nan). -/
+theorem continuity_local_ok_def (refv est : List Rat) (p q : Rat) (m j : Nat) :
+    LocalOk refv est p q m j ↔
+      (let first : Prop := m = 0 ∨ j = 0
+       let d : Rat := |est.getD m 0 - refv.getD j 0|
+       let ri : Rat :=
+         if decide first = true ∧ j + 1 < refv.length then refv.getD (j + 1) 0 - refv.getD j 0
+         else if j = 0 then 0 else refv.getD j 0 - refv.getD (j - 1) 0
+       let ei : Rat :=
+         if decide first = true ∧ m + 1 < est.length then est.getD (m + 1) 0 - est.getD m 0
+         else if m = 0 then 0 else est.getD m 0 - est.getD (m - 1) 0
+       (if ri = 0 then first ∧ d = 0 ∧ 1 < p else |d / ri| < p) ∧
+         (if ri = 0 then first ∧ ei = 0 ∧ 0 < q else |1 - ei / ri| < q)) :=
+  Iff.rfl
+
+/-- **One iteration of the loop.**  For the estimated beat `e` at position `|pre|` of `pre ++ e :: rest`, the
+    code's iteration with state `used` returns: success iff the nearest annotation is not in `used` and the beat
+    is locally ok; together with the nearest annotation. -/
+theorem continuity_beat_step (refv : List Rat) (hne : refv ≠ []) (p q : Rat) (pre rest : List Rat) (e : Rat)
+    (used : List Nat) :
+    ∃ b : Bool, contBeat refv p q pre.length pre.getLast? e rest.head? used = .ok (b, nearestIdx refv e) ∧
+      (b = true ↔ nearestIdx refv e ∉ used ∧
+        LocalOk refv (pre ++ e :: rest) p q pre.length (nearestIdx refv e)) := by
+  refine ⟨_, contBeat_eq hne p q pre rest e used, ?_⟩
+  simp [localOkAt_iff]
+
+/-- **The loop = the non-recursive definition.**  The flags `beat_successes` that the code computes with its
+    `used_annotations` state are, beat by beat, "this beat is `Correct`", where `Correct refv est p q m` says:
+    for the nearest annotation `j` of beat `m`, the beat is locally ok w.r.t. `j` and NO earlier beat whose
+    nearest annotation is also `j` is locally ok. -/
+theorem continuity_correct_beats (refv est : List Rat) (p q : Rat) (hne : refv ≠ []) :
+    contLoop refv p q 0 none est [] = .ok ((List.range est.length).map (correctB refv est p q)) ∧
+    (∀ m, correctB refv est p q m = true ↔
+      ∃ j, IsNearest refv (est.getD m 0) j ∧ LocalOk refv est p q m j ∧
+        ∀ m', m' < m → ¬ (IsNearest refv (est.getD m' 0) j ∧ LocalOk refv est p q m' j)) :=
+  ⟨contLoop_eq_spec hne est p q, fun m => correctB_iff hne est p q m⟩
+
+/-- the same flags through the computable tests: `correctB m` = `localOkB m` and no earlier `m'` with
+    `localOkB m'` and the same nearest annotation -/
+theorem continuity_correct_beats_bool (refv est : List Rat) (p q : Rat) (m : Nat) :
+    (correctB refv est p q m = true ↔ localOkB refv est p q m = true ∧
+      ∀ m', m' < m → ¬ (localOkB refv est p q m' = true ∧ nearestOf refv est m' = nearestOf refv est m)) ∧
+    (localOkB refv est p q m = true ↔ LocalOk refv est p q m (nearestOf refv est m)) :=
+  ⟨correctB_iff_local refv est p q m, localOkAt_iff _ _ _ _ _ _⟩
+
+/-- **Longest run.**  The code's `np.max(np.diff(beat_failures)) - 1` (model: `longestRun bs 0`) is the length of
+    a longest window of consecutive successes: some window of that length is all true, no window one longer is;
+    this determines the number, which is also the brute-force `runSpec` (greatest `k ≤ |bs|` with an all-true
+    window of length `k`).  The total count is the number of indices whose flag is true. -/
+theorem continuity_longest_run_spec (bs : List Bool) :
+    ((∃ s, s + longestRun bs 0 ≤ bs.length ∧ ∀ i, s ≤ i → i < s + longestRun bs 0 → bs[i]? = some true) ∧
+      ¬ ∃ s, s + (longestRun bs 0 + 1) ≤ bs.length ∧
+        ∀ i, s ≤ i → i < s + (longestRun bs 0 + 1) → bs[i]? = some true) ∧
+    (∀ k, IsLongestRun bs k → k = longestRun bs 0) ∧
+    longestRun bs 0 = runSpec bs ∧
+    (∀ (f : Nat → Bool) (n : Nat), countTrue ((List.range n).map f) = ((List.range n).filter f).length) :=
+  ⟨longestRun_isLongestRun bs, fun _ hk => (isLongestRun_iff bs _).1 hk, longestRun_eq_runSpec bs,
+    countTrue_map_range⟩
+
+/-- **Scores against one variation.**  continuous accuracy = (longest window of consecutive correct beats) / N,
+    total accuracy = (number of correct beats) / N, with N = max(|ref|, |est|); stated both with the brute-force
+    `runSpec` (inside `specVariation`) and relationally with any `k` satisfying `IsLongestRun`. -/
+theorem continuity_variation_definition (refv est : List Rat) (p q : Rat) (hne : refv ≠ []) :
+    contVariation refv est p q = .ok (specVariation refv est p q) ∧
+    specVariation refv est p q =
+      ((runSpec ((List.range est.length).map (correctB refv est p q)) : Rat) /
+          ((max refv.length est.length : Nat) : Rat),
+       (((List.range est.length).filter (correctB refv est p q)).length : Rat) /
+          ((max refv.length est.length : Nat) : Rat)) ∧
+    ∀ k, IsLongestRun ((List.range est.length).map (correctB refv est p q)) k →
+      contVariation refv est p q =
+        .ok ((k : Rat) / ((max refv.length est.length : Nat) : Rat),
+             (((List.range est.length).filter (correctB refv est p q)).length : Rat) /
+               ((max refv.length est.length : Nat) : Rat)) :=
+  ⟨contVariation_eq_spec hne est p q, rfl, fun k hk => contVariation_eq_of_isLongestRun hne est p q k hk⟩
+
+/-- **The four scores.**  With at least two reference and two estimated beats the function returns
+    (CMLc, CMLt, AMLc, AMLt): CMLc / CMLt are the continuous / total accuracy against the annotation itself, and
+    AMLc / AMLt are the maxima of the continuous / total accuracies over the five metrical variations of the
+    annotation (each maximum is attained by a variation and bounds all of them). -/
+theorem continuity_definition (ref est : List Rat) (p q : Rat) (hr : 2 ≤ ref.length) (he : 2 ≤ est.length) :
+    ∃ ac at', continuityCore ref est p q =
+        .ok ((specVariation ref est p q).1, (specVariation ref est p q).2, ac, at') ∧
+      (ac ∈ (variations ref).map (fun v => (specVariation v est p q).1) ∧
+        ∀ x ∈ (variations ref).map (fun v => (specVariation v est p q).1), x ≤ ac) ∧
+      (at' ∈ (variations ref).map (fun v => (specVariation v est p q).2) ∧
+        ∀ x ∈ (variations ref).map (fun v => (specVariation v est p q).2), x ≤ at') :=
+  continuityCore_definition hr he p q
+
+/-- the same for the public function: after successful validation it returns exactly these scores -/
+theorem continuity_definition_validated (ref est : List Rat) (p q : Rat) (hr : 2 ≤ ref.length)
+    (he : 2 ≤ est.length) (hv : validate ref est = .ok ()) :
+    ∃ ac at', continuity ref est p q =
+        .ok ((specVariation ref est p q).1, (specVariation ref est p q).2, ac, at') ∧
+      IsMaxOf ac ((variations ref).map fun v => (specVariation v est p q).1) ∧
+      IsMaxOf at' ((variations ref).map fun v => (specVariation v est p q).2) := by
+  obtain ⟨ac, at', h1, h2, h3⟩ := continuityCore_definition hr he p q
+  exact ⟨ac, at', (continuity_ok_iff ref est p q _).2 ⟨hv, h1⟩, h2, h3⟩
+
+/-- **Degenerate inputs.**  With at most one estimated or at most one reference beat all four scores are 0. -/
+theorem continuity_degenerate (ref est : List Rat) (p q : Rat) (h : est.length ≤ 1 ∨ ref.length ≤ 1) :
+    continuityCore ref est p q = .ok (0, 0, 0, 0) :=
+  continuityCore_degenerate h p q
+
+/-- **Self-comparison, total.**  A strictly increasing sequence of at least two beats against itself scores
+    (1, 1, 1, 1) for positive thresholds — the function returns, and returns this; with validation likewise. -/
+theorem continuity_self_total (x : List Rat) (p q : Rat) (hx : x.Pairwise (· < ·)) (hlen : 2 ≤ x.length)
+    (hp : 0 < p) (hq : 0 < q) :
+    continuityCore x x p q = .ok (1, 1, 1, 1) ∧
+    (validate x x = .ok () → continuity x x p q = .ok (1, 1, 1, 1)) :=
+  ⟨continuityCore_self_total x p q hx hlen hp hq, Mir.Beat.continuity_self_total x p q hx hlen hp hq⟩
+
+/-! ### non-vacuity: concrete runs of the code model and of the stateless definition -/
+
+-- an estimate with an extra beat: beats 1 and 2 (8/5 and 12/5) both have annotation 1 (time 2) as nearest and
+-- both are locally ok for thresholds 1/2, but only the first one counts
+example : (List.range 6).map (nearestOf [1, 2, 3, 4, 5] [1, 8 / 5, 12 / 5, 3, 4, 5]) = [0, 1, 1, 2, 3, 4] := by
+  decide +kernel
+example : (List.range 6).map (localOkB [1, 2, 3, 4, 5] [1, 8 / 5, 12 / 5, 3, 4, 5] (1 / 2) (1 / 2))
+    = [true, true, true, true, true, true] := by decide +kernel
+example : (List.range 6).map (correctB [1, 2, 3, 4, 5] [1, 8 / 5, 12 / 5, 3, 4, 5] (1 / 2) (1 / 2))
+    = [true, true, false, true, true, true] := by decide +kernel
+example : contLoop [1, 2, 3, 4, 5] (1 / 2) (1 / 2) 0 none [1, 8 / 5, 12 / 5, 3, 4, 5] []
+    = .ok [true, true, false, true, true, true] := by decide +kernel
+example : runSpec [true, true, false, true, true, true] = 3 := by decide +kernel
+example : longestRun [true, true, false, true, true, true] 0 = 3 := by decide +kernel
+example : specVariation [1, 2, 3, 4, 5] [1, 8 / 5, 12 / 5, 3, 4, 5] (1 / 2) (1 / 2) = (1 / 2, 5 / 6) := by
+  decide +kernel
+example : contVariation [1, 2, 3, 4, 5] [1, 8 / 5, 12 / 5, 3, 4, 5] (1 / 2) (1 / 2) = .ok (1 / 2, 5 / 6) := by
+  decide +kernel
+-- ties go to the first annotation
+example : nearestIdx [1, 2, 3] (3 / 2) = 0 := by decide +kernel
+-- an off-beat estimate: wrong at the annotated level (CML = 0), perfect against the off-beat variation (AML = 1)
+example : continuityCore [1, 2, 3, 4, 5] [3 / 2, 5 / 2, 7 / 2, 9 / 2] (7 / 40) (7 / 40) = .ok (0, 0, 1, 1) := by
+  decide +kernel
+example : (variations [1, 2, 3, 4, 5]).map (fun v => specVariation v [3 / 2, 5 / 2, 7 / 2, 9 / 2] (7 / 40) (7 / 40))
+    = [(0, 0), (1, 1), (0, 0), (0, 0), (0, 0)] := by decide +kernel
+-- a double-tempo estimate
+example : continuityCore [1, 2, 3, 4, 5] [1, 3 / 2, 2, 5 / 2, 3, 7 / 2, 4, 9 / 2, 5] (7 / 40) (7 / 40)
+    = .ok (0, 0, 1, 1) := by decide +kernel
+-- repeated annotations (zero reference interval) and a one-annotation variation are covered too
+example : continuityCore [1, 1, 2] [1, 1, 2] (7 / 40) (7 / 40) = .ok (1 / 3, 1 / 3, 2 / 3, 2 / 3) := by
+  decide +kernel
+example : contLoop [3] 2 1 0 none [3, 3] [] = .ok [true, false] ∧ correctFlags [3] [3, 3] 2 1 = [true, false] := by
+  decide +kernel
+example : continuityCore [5] [5, 6, 7] (7 / 40) (7 / 40) = .ok (0, 0, 0, 0) := by decide +kernel
+example : continuityCore [5, 6, 7] [5, 6, 7] (7 / 40) (7 / 40) = .ok (1, 1, 1, 1) ∧
+    validate [5, 6, 7] [5, 6, 7] = .ok () ∧ ([5, 6, 7] : List Rat).Pairwise (· < ·) := by decide +kernel
+
+/-! ## Goto: the branchy code = a brute-force definition over the beat-error array -/
+
+/-- **Goto's criterion, ≥ 3 incorrect beats (`incorrect_beats.shape[0] >= 3`).**  For non-empty inputs the
+    code returns a binary score, and the score is 1 exactly when the FIRST LONGEST gap `(s, e)` between
+    consecutive incorrect beats contains more than `(n - 2) / 4` correct beats (`e - s - 1`) and the track
+    `beat_error[s : e + 1]` — which INCLUDES the two bounding incorrect beats, as the code does — has mean
+    absolute error `< mu` and sample standard deviation `< sigma`.  (`tie` flags an exact tie in one of the
+    two comparisons; the score does not depend on it.) -/
+theorem goto_definition {ref est : List Rat} (hr : ref ≠ []) (he : est ≠ []) (thr mu sigma : Rat)
+    (h3 : 3 ≤ (flatnonzeroGt (gotoErrors ref est) thr).length) :
+    ∃ score tie, gotoCore ref est thr mu sigma = .ok (score, tie) ∧ (score = 0 ∨ score = 1) ∧
+      (score = 1 ↔ ∃ s e, IsFirstLongestGap (gotoErrors ref est) thr s e ∧
+          (1 / 4 : Rat) * ((ref.length : Rat) - 2) < ((e - s : Nat) : Rat) - 1 ∧
+          TrackOk (((gotoErrors ref est).drop s).take (e - s + 1)) mu sigma) :=
+  goto_definition_ge3 hr he thr mu sigma h3
+
+/-- the same for the public `goto` (validation included) -/
+theorem goto_definition_validated {ref est : List Rat} (hv : validate ref est = .ok ()) (hr : ref ≠ [])
+    (he : est ≠ []) (thr mu sigma : Rat) (h3 : 3 ≤ (flatnonzeroGt (gotoErrors ref est) thr).length) :
+    ∃ score, goto ref est thr mu sigma = .ok score ∧ (score = 0 ∨ score = 1) ∧
+      (score = 1 ↔ ∃ s e, IsFirstLongestGap (gotoErrors ref est) thr s e ∧
+          (1 / 4 : Rat) * ((ref.length : Rat) - 2) < ((e - s : Nat) : Rat) - 1 ∧
+          TrackOk (((gotoErrors ref est).drop s).take (e - s + 1)) mu sigma) :=
+  goto_ge3_top hv hr he thr mu sigma h3
+
+/-- the hypothesis of `goto_definition` in Layer-S terms: the index array lists exactly the incorrect
+    beats, in strictly increasing order, and its adjacent entries are exactly the gaps -/
+theorem goto_incorrect_beats_spec (errs : List Rat) (thr : Rat) :
+    (∀ i, i ∈ flatnonzeroGt errs thr ↔ Incorrect errs thr i) ∧
+    (flatnonzeroGt errs thr).Pairwise (· < ·) ∧
+    (∀ s e, IsGap errs thr s e ↔
+      ∃ j, (flatnonzeroGt errs thr)[j]? = some s ∧ (flatnonzeroGt errs thr)[j + 1]? = some e) :=
+  ⟨mem_flatnonzeroGt errs thr, flatnonzeroGt_pairwise errs thr, isGap_iff_adjacent errs thr⟩
+
+/-- the first longest gap exists as soon as there are two incorrect beats, and it is unique, so the
+    `∃ s e` of `goto_definition` designates one gap -/
+theorem goto_first_longest_gap_unique {errs : List Rat} {thr : Rat} {s e s' e' : Nat}
+    (h : IsFirstLongestGap errs thr s e) (h' : IsFirstLongestGap errs thr s' e') : s = s' ∧ e = e' :=
+  isFirstLongestGap_unique h h'
+
+theorem goto_first_longest_gap_exists (errs : List Rat) (thr : Rat)
+    (h2 : 2 ≤ (flatnonzeroGt errs thr).length) : ∃ s e, IsFirstLongestGap errs thr s e :=
+  exists_isFirstLongestGap errs thr h2
+
+/-- `np.max(np.diff(incorrect_beats))` and the first index where it is attained: `firstMax d ds = (m, j)`
+    means `m` is the maximum of `d :: ds`, it sits at index `j`, and every earlier entry is smaller -/
+theorem goto_first_max_spec (ds : List Int) (d m : Int) (j : Nat) (h : firstMax d ds = (m, j)) :
+    (d :: ds)[j]? = some m ∧ (∀ x ∈ d :: ds, x ≤ m) ∧ ∀ i x, i < j → (d :: ds)[i]? = some x → x < m :=
+  firstMax_spec ds d m j h
+
+/-- the slice `beat_error[start_beat : end_beat + 1]` is the `e - s + 1` entries from `s` on -/
+theorem goto_track_slice (errs : List Rat) (s e : Nat) (hse : s ≤ e) :
+    pySlice errs (s : Int) ((e : Int) + 1) = (errs.drop s).take (e - s + 1) := pySlice_incl errs s e hse
+
+/-- **the mean / std test** `np.mean(np.abs(track)) < mu and np.std(track, ddof=1) < sigma`, NaN cases
+    (empty track, one-element track) and the sign of `sigma` included -/
+theorem goto_track_ok_spec (track : List Rat) (mu sigma : Rat) :
+    (gotoTrackOk track mu sigma).1 = true ↔ TrackOk track mu sigma := gotoTrackOk_fst_iff track mu sigma
+
+/-- **Goto's criterion, fewer than 3 incorrect beats** (`a` = first, `b` = last incorrect beat; there is at
+    least one when the code does not raise `IndexError`): the track is the Python slice
+    `beat_error[a + 1 : b - 1]`, with no minimum length. -/
+theorem goto_definition_short {ref est : List Rat} (hr : ref ≠ []) (he : est ≠ []) (thr mu sigma : Rat)
+    (h3 : (flatnonzeroGt (gotoErrors ref est) thr).length < 3) {a b : Nat}
+    (ha : Incorrect (gotoErrors ref est) thr a ∧ ∀ i, Incorrect (gotoErrors ref est) thr i → a ≤ i)
+    (hb : Incorrect (gotoErrors ref est) thr b ∧ ∀ i, Incorrect (gotoErrors ref est) thr i → i ≤ b) :
+    ∃ score tie, gotoCore ref est thr mu sigma = .ok (score, tie) ∧ (score = 0 ∨ score = 1) ∧
+      (score = 1 ↔ TrackOk (pySlice (gotoErrors ref est) ((a : Int) + 1) ((b : Int) - 1)) mu sigma) :=
+  goto_definition_lt3 hr he thr mu sigma h3 ((head?_flatnonzeroGt_iff _ _ _).2 ha)
+    ((getLast?_flatnonzeroGt_iff _ _ _).2 hb)
+
+/-- **Goto's criterion when every inner beat is correct** (the normal situation `thr < 1`: the first and
+    the last beat keep the error 1 and are the only incorrect ones).  The track is `beat_error[1 : n - 2]`:
+    the inner beats WITHOUT the last inner beat (the `- 1` of the code's slice), so with `n ≤ 4` beats the
+    score is 0 (fewer than 2 entries). -/
+theorem goto_definition_all_correct {ref est : List Rat} (hr : ref ≠ []) (he : est ≠ [])
+    (thr mu sigma : Rat) (hthr : thr < 1)
+    (hall : ∀ i, 0 < i → i + 1 < ref.length → ¬ Incorrect (gotoErrors ref est) thr i) :
+    ∃ score tie, gotoCore ref est thr mu sigma = .ok (score, tie) ∧ (score = 0 ∨ score = 1) ∧
+      (score = 1 ↔ TrackOk (((gotoErrors ref est).drop 1).take (ref.length - 3)) mu sigma) :=
+  goto_definition_all_correct' hr he thr mu sigma hthr hall
+
+/-- shape of the beat-error array the definitions range over: one entry per reference beat, first and last
+    entry 1, inner entry `i + 1` the normalised error of the triple `ref[i], ref[i+1], ref[i+2]` -/
+theorem goto_errors_shape {ref : List Rat} (hr : ref ≠ []) (est : List Rat) :
+    (gotoErrors ref est).length = ref.length ∧ (gotoErrors ref est)[0]? = some 1 ∧
+    (gotoErrors ref est)[ref.length - 1]? = some 1 ∧
+    ∀ i a b c, ref[i]? = some a → ref[i + 1]? = some b → ref[i + 2]? = some c →
+      (gotoErrors ref est)[i + 1]? = some (gotoErr a b c est) :=
+  ⟨gotoErrors_length ref est, gotoErrors_first hr est, gotoErrors_last hr est,
+    fun i a b c => gotoErrors_inner ref est i a b c⟩
+
+/-! ### non-vacuity -/
+
+/-- ten reference beats at 0, 1, …, 9 -/
+def ref10 : List Rat := [0, 1, 2, 3, 4, 5, 6, 7, 8, 9]
+/-- the estimate misses beat 7 -/
+def estMiss7 : List Rat := [0, 1, 2, 3, 4, 5, 6, 8, 9]
+/-- the estimate misses beats 3 and 6 -/
+def estMiss36 : List Rat := [0, 1, 2, 4, 5, 7, 8, 9]
+
+/-- sixty reference beats at 0, 1, …, 59; the estimate misses beat 55 -/
+def ref60 : List Rat := (List.range 60).map fun i => (i : Rat)
+def est60 : List Rat := ((List.range 60).filter fun i => i != 55).map fun i => (i : Rat)
+
+-- the pieces on a concrete input: errors, incorrect beats, the first longest gap
+example : gotoErrors ref10 estMiss7 = [1, 0, 0, 0, 0, 0, 0, 1, 0, 1] := by decide +kernel
+example : flatnonzeroGt (gotoErrors ref10 estMiss7) (7 / 20) = [0, 7, 9] := by decide +kernel
+example : 3 ≤ (flatnonzeroGt (gotoErrors ref10 estMiss7) (7 / 20)).length := by decide +kernel
+example : IsFirstLongestGap (gotoErrors ref10 estMiss7) (7 / 20) 0 7 :=
+  isFirstLongestGap_of_compute _ _ (d := 7) (ds := [2]) (m := 7) (j := 0)
+    (by decide +kernel) (by decide +kernel) (by decide +kernel) (by decide +kernel)
+-- three gaps of equal width 3: the FIRST one is selected
+example : flatnonzeroGt (gotoErrors ref10 estMiss36) (7 / 20) = [0, 3, 6, 9] := by decide +kernel
+example : IsFirstLongestGap (gotoErrors ref10 estMiss36) (7 / 20) 0 3 :=
+  isFirstLongestGap_of_compute _ _ (d := 3) (ds := [3, 3]) (m := 3) (j := 0)
+    (by decide +kernel) (by decide +kernel) (by decide +kernel) (by decide +kernel)
+-- the mean / std test on the track of `estMiss7` (bounding incorrect beats included)
+example : TrackOk [1, 0, 0, 0, 0, 0, 0, 1] (1 / 2) (1 / 2) := (goto_track_ok_spec _ _ _).1 (by decide +kernel)
+example : ¬ TrackOk [1, 0, 0, 0, 0, 0, 0, 1] (1 / 5) (1 / 5) := fun h =>
+  absurd ((goto_track_ok_spec _ _ _).2 h) (by decide +kernel)
+
+-- ≥ 3 branch, score 1: one missed beat, mu = sigma = 1/2
+example : gotoCore ref10 estMiss7 (7 / 20) (1 / 2) (1 / 2) = .ok (1, false) := by decide +kernel
+example : validate ref10 estMiss7 = .ok () := by decide +kernel
+example : goto ref10 estMiss7 (7 / 20) (1 / 2) (1 / 2) = .ok 1 := by decide +kernel
+-- ≥ 3 branch, score 0 with the default mu = sigma = 1/5: the two bounding errors 1 are part of the track
+example : gotoCore ref10 estMiss7 (7 / 20) (1 / 5) (1 / 5) = .ok (0, false) := by decide +kernel
+-- ≥ 3 branch, score 0: the longest gap has 2 correct beats, not more than (10 - 2) / 4 = 2
+example : gotoCore ref10 estMiss36 (7 / 20) (1 / 2) (1 / 2) = .ok (0, false) := by decide +kernel
+-- ≥ 3 branch, score 1 with the default parameters needs a long track (here 56 entries)
+example : flatnonzeroGt (gotoErrors ref60 est60) (7 / 20) = [0, 55, 59] := by decide +kernel
+example : gotoCore ref60 est60 (7 / 20) (1 / 5) (1 / 5) = .ok (1, false) := by decide +kernel
+
+-- < 3 branch: a perfect estimate of 10 beats scores 1; of 4 beats scores 0 (track `errs[1:2]` has one entry)
+example : ∀ i, 0 < i → i + 1 < ref10.length → ¬ Incorrect (gotoErrors ref10 ref10) (7 / 20) i := by
+  intro i h0 h1 h
+  have hm := (mem_flatnonzeroGt _ _ _).2 h
+  have e : flatnonzeroGt (gotoErrors ref10 ref10) (7 / 20) = [0, 9] := by decide +kernel
+  have hl : ref10.length = 10 := rfl
+  rw [e] at hm
+  simp at hm; omega
+example : gotoCore ref10 ref10 (7 / 20) (1 / 5) (1 / 5) = .ok (1, false) := by decide +kernel
+example : gotoCore [0, 1, 2, 3] [0, 1, 2, 3] (7 / 20) (1 / 5) (1 / 5) = .ok (0, false) := by decide +kernel
+
+/-- the reading "mean and standard deviation are taken over the CORRECT beats of the longest run only" (the track
+    without its two bounding incorrect beats) is FALSE of the code: -/
+def goto_correct_track_full_statement : Prop :=
+  ∀ (ref est : List Rat) (thr mu sigma : Rat), ref ≠ [] → est ≠ [] →
+    3 ≤ (flatnonzeroGt (gotoErrors ref est) thr).length →
+    ∀ score tie, gotoCore ref est thr mu sigma = .ok (score, tie) →
+      (score = 1 ↔ ∃ s e, IsFirstLongestGap (gotoErrors ref est) thr s e ∧
+          (1 / 4 : Rat) * ((ref.length : Rat) - 2) < ((e - s : Nat) : Rat) - 1 ∧
+          TrackOk (((gotoErrors ref est).drop (s + 1)).take (e - s - 1)) mu sigma)
+
+/-- witness: ten beats 0..9, the estimate misses beat 7 and is perfect otherwise (default parameters).  The longest run
+    of correct beats (beats 1..6, all with error 0) covers 6 > (10 - 2)/4 beats and has mean = std = 0, yet the code
+    returns 0, because its track `beat_error[0 : 8]` contains the two bounding errors of 1. -/
+theorem goto_correct_track_full_false : ¬ goto_correct_track_full_statement := by
+  intro h
+  have h1 := h ref10 estMiss7 (7 / 20) (1 / 5) (1 / 5) (by decide) (by decide) (by decide +kernel) 0 false
+    (by decide +kernel)
+  have hgap : IsFirstLongestGap (gotoErrors ref10 estMiss7) (7 / 20) 0 7 :=
+    isFirstLongestGap_of_compute _ _ (d := 7) (ds := [2]) (m := 7) (j := 0)
+      (by decide +kernel) (by decide +kernel) (by decide +kernel) (by decide +kernel)
+  have : (0 : Rat) = 1 := h1.2 ⟨0, 7, hgap, by decide +kernel, (goto_track_ok_spec _ _ _).1 (by decide +kernel)⟩
+  exact absurd this (by decide +kernel)
 
 end Mir.C04.Beat
